@@ -1,10 +1,12 @@
-import TinsModel.Checksum.Lemmas
-import TinsModel.Checksum.CrcLemmas
+import TinsModel.Checksum.Verify
 import TinsModel.Checksum.SerLemmas
+import TinsModel.Checksum.Walk.Main
 import TinsModel.Wire.Derived.Examples
+import TinsModel.Wire.Derived.Wifi
 /-
   Property C05 — fields libtins derives are correct on the wire.  Theorems only; helper lemmas live in
-  TinsModel/Checksum/Lemmas*.lean.
+  TinsModel/Checksum/Lemmas*.lean, the proofs of Part 1 / 2 in TinsModel/Checksum/Verify.lean (so that the lemma files about
+  whole stacks can use them).
 
   Part 1 — Internet checksums.  `Tins.Ck.*` is the code-shaped model of libtins (little-endian 16-bit loads,
   `uint32_t` accumulator, fold loop, complement, store); `Tins.Ck.Spec.*` is RFC 1071 over big-endian words.
@@ -15,74 +17,27 @@ open Tins.Ck Tins.Ck.Spec
 /-- **Byte-order independence.**  For every byte string shorter than 128 KiB (odd lengths and any number of
     carries included) the value `sum_range` returns, byte-swapped, is the RFC 1071 one's-complement sum of the
     big-endian words. -/
-theorem sum_range_spec (bs : Bytes) (h : bs.length < 131072) : bswap16 (sumRange bs) = ocSum bs := by
-  rw [sumRange_eq bs h, ocSum_eq, bswap16_foldv _ (foldv_le _)]
-  apply foldv_congr
-  · have := le_be_mod bs
-    have hf : foldv (leSum bs) % 65535 = leSum bs % 65535 := by unfold foldv; split <;> omega
-    omega
-  · have := le_be_zero bs; have := foldv_eq_zero (leSum bs); omega
+theorem sum_range_spec (bs : Bytes) (h : bs.length < 131072) : bswap16 (sumRange bs) = ocSum bs :=
+  Verify.sum_range_spec bs h
 
 example : bswap16 (sumRange [0xff, 0xff, 0xff, 0xff, 0x01]) = ocSum [0xff, 0xff, 0xff, 0xff, 0x01] := by decide
 
 /-- `do_checksum` followed by the caller's fold loop (as in `IP::write_serialization`) is the RFC 1071 sum. -/
-theorem do_checksum_spec (bs : Bytes) (h : bs.length < 131072) : fold32 (doChecksum bs) = ocSum bs := by
-  rw [← sum_range_spec bs h]
-  have hs : sumRange bs ≤ 65535 := by rw [sumRange_eq bs h]; exact foldv_le _
-  unfold doChecksum
-  generalize sumRange bs = x at *
-  unfold bswap32 bswap16
-  have e1 : x / 65536 % 256 = 0 := by omega
-  have e2 : x / 16777216 % 256 = 0 := by omega
-  rw [e1, e2]
-  have hb : x % 256 * 16777216 + x / 256 % 256 * 65536 + 0 * 256 + 0 < 4294967296 := by omega
-  rw [fold32_eq _ hb]
-  unfold foldv; split <;> omega
+theorem do_checksum_spec (bs : Bytes) (h : bs.length < 131072) : fold32 (doChecksum bs) = ocSum bs :=
+  Verify.do_checksum_spec bs h
 
 /-- **IPv4 header checksum.**  Whatever the header bytes (options, padding) with the checksum field zeroed,
     the header libtins emits verifies under RFC 791/1071. -/
 theorem ip_checksum_verifies (buf : Bytes) (hlen : Nat) (hh : hlen < 131072) (h12 : 12 ≤ hlen)
     (h0 : buf[10]? = some 0) (h1 : buf[11]? = some 0) :
-    verifies ((ipTail buf hlen).take hlen) = true := by
-  have hs : sumRange (buf.take hlen) ≤ 65535 := by
-    rw [sumRange_eq _ (by simp; omega)]; exact foldv_le _
-  have hv : bswap16 (wrap16 (not32 (fold32 (doChecksum (List.take hlen buf))))) =
-      65535 - foldv (0 + leSum (buf.take hlen)) := by
-    rw [do_checksum_spec _ (by simp; omega), ← sum_range_spec _ (by simp; omega),
-      not32_wrap16 _ (bswap16_le _), Nat.zero_add, ← sumRange_eq _ (by simp; omega)]
-    generalize sumRange (List.take hlen buf) = x at *
-    unfold bswap16
-    have h1 : (x % 256 * 256 + x / 256 % 256) / 256 = x % 256 := by omega
-    have h2 : (x % 256 * 256 + x / 256 % 256) % 256 = x / 256 := by omega
-    have e1 : (65535 - (x % 256 * 256 + x / 256 % 256)) % 256 = 255 - x / 256 := by omega
-    have e2 : (65535 - (x % 256 * 256 + x / 256 % 256)) / 256 % 256 = 255 - x % 256 := by omega
-    rw [e1, e2]; omega
-  unfold ipTail verifies
-  simp only []
-  rw [hv]
-  unfold poke16
-  rw [List.take_set, List.take_set]
-  have := stored_verifies [] (buf.take hlen) 0 10 (by simp) (by simp [beSum]) (by simp [beSum]) (by omega)
-    (by rw [List.getElem?_take]; simp [h0]; omega) (by rw [List.getElem?_take]; simp [h1]; omega)
-  simp only [List.nil_append, poke16, Nat.zero_add, Nat.reduceAdd] at this
-  simp only [Nat.zero_add, Nat.reduceAdd]
-  simp [this]
+    verifies ((ipTail buf hlen).take hlen) = true :=
+  Verify.ip_checksum_verifies buf hlen hh h12 h0 h1
 
 /-- **TCP over IPv4.** -/
 theorem tcp_checksum_verifies_ip4 (src dst buf : Bytes) (hs : src.length = 4) (hd : dst.length = 4)
     (hlen : buf.length ≤ 65535) (h0 : buf[16]? = some 0) (h1 : buf[17]? = some 0) :
-    verifies (pseudo4 src dst 6 buf.length ++ tcpTail (.ip4 src dst) buf buf.length) = true := by
-  unfold tcpTail verifies
-  simp only []
-  have hP := pseudoSum_small src dst buf.length 6 (by omega) (by omega) (by omega) (by omega)
-  rw [tail_value _ _ hP (by omega), bswap16_bswap16 _ (by omega)]
-  have hle := pseudoSum_le src dst buf.length 6 (by omega) (by omega) (by omega) (by omega)
-  have hb := pseudo4_bytes src dst 6 buf.length (by omega) hlen
-  rw [hb] at hle
-  have := stored_verifies (pseudo4 src dst 6 buf.length) buf (pseudoSum src dst buf.length 6) 16
-    (by rw [pseudo4_len]; omega) (by rw [hle]; exact le_be_mod _) (by rw [hle]; exact le_be_zero _)
-    (by omega) h0 h1
-  simp [this]
+    verifies (pseudo4 src dst 6 buf.length ++ tcpTail (.ip4 src dst) buf buf.length) = true :=
+  Verify.tcp_checksum_verifies_ip4 src dst buf hs hd hlen h0 h1
 
 example : verifies (pseudo4 [10,0,0,1] [10,0,0,2] 6 21 ++
     tcpTail (.ip4 [10,0,0,1] [10,0,0,2]) ([0,80,0x1f,0x90,0,0,0,1,0,0,0,0,0x50,2,0xff,0xff,0,0,0,0] ++ [0xab]) 21) = true := by
@@ -91,109 +46,45 @@ example : verifies (pseudo4 [10,0,0,1] [10,0,0,2] 6 21 ++
 /-- **TCP over IPv6** (RFC 8200 §8.1 pseudo header: 32-bit length, 3 zero bytes, next header). -/
 theorem tcp_checksum_verifies_ip6 (src dst buf : Bytes) (hs : src.length = 16) (hd : dst.length = 16)
     (hlen : buf.length ≤ 65535) (h0 : buf[16]? = some 0) (h1 : buf[17]? = some 0) :
-    verifies (pseudo6 src dst 6 buf.length ++ tcpTail (.ip6 src dst) buf buf.length) = true := by
-  unfold tcpTail verifies
-  simp only []
-  have hP := pseudoSum_small src dst buf.length 6 (by omega) (by omega) (by omega) (by omega)
-  rw [tail_value _ _ hP (by omega), bswap16_bswap16 _ (by omega)]
-  have hle := pseudoSum_le src dst buf.length 6 (by omega) (by omega) (by omega) (by omega)
-  have hb := pseudo6_beSum src dst 6 buf.length (by omega) (by omega) (by omega) hlen
-  have := stored_verifies (pseudo6 src dst 6 buf.length) buf (pseudoSum src dst buf.length 6) 16
-    (by rw [pseudo6_len]; omega) (by rw [hle, hb]; exact le_be_mod _) (by rw [hle, hb]; exact le_be_zero _)
-    (by omega) h0 h1
-  simp [this]
+    verifies (pseudo6 src dst 6 buf.length ++ tcpTail (.ip6 src dst) buf buf.length) = true :=
+  Verify.tcp_checksum_verifies_ip6 src dst buf hs hd hlen h0 h1
 
 /-- **UDP over IPv4** (RFC 768), including the case where the computed checksum is 0 and 0xffff is sent. -/
 theorem udp_checksum_verifies_ip4 (src dst buf : Bytes) (hs : src.length = 4) (hd : dst.length = 4)
     (hlen : buf.length ≤ 65535) (h0 : buf[6]? = some 0) (h1 : buf[7]? = some 0) :
-    verifies (pseudo4 src dst 17 buf.length ++ udpTail (.ip4 src dst) buf buf.length) = true := by
-  unfold udpTail verifies
-  simp only []
-  have hP := pseudoSum_small src dst buf.length 17 (by omega) (by omega) (by omega) (by omega)
-  rw [tail_value _ _ hP (by omega)]
-  have hle := pseudoSum_le src dst buf.length 17 (by omega) (by omega) (by omega) (by omega)
-  have hb := pseudo4_bytes src dst 17 buf.length (by omega) hlen
-  rw [hb] at hle
-  have := stored_verifies_udp (pseudo4 src dst 17 buf.length) buf (pseudoSum src dst buf.length 17) 6
-    (by rw [pseudo4_len]; omega) (by rw [hle]; exact le_be_mod _) (by rw [hle]; exact le_be_zero _)
-    (by omega) h0 h1
-  simp [this]
+    verifies (pseudo4 src dst 17 buf.length ++ udpTail (.ip4 src dst) buf buf.length) = true :=
+  Verify.udp_checksum_verifies_ip4 src dst buf hs hd hlen h0 h1
 
 /-- **UDP over IPv6.** -/
 theorem udp_checksum_verifies_ip6 (src dst buf : Bytes) (hs : src.length = 16) (hd : dst.length = 16)
     (hlen : buf.length ≤ 65535) (h0 : buf[6]? = some 0) (h1 : buf[7]? = some 0) :
-    verifies (pseudo6 src dst 17 buf.length ++ udpTail (.ip6 src dst) buf buf.length) = true := by
-  unfold udpTail verifies
-  simp only []
-  have hP := pseudoSum_small src dst buf.length 17 (by omega) (by omega) (by omega) (by omega)
-  rw [tail_value _ _ hP (by omega)]
-  have hle := pseudoSum_le src dst buf.length 17 (by omega) (by omega) (by omega) (by omega)
-  have hb := pseudo6_beSum src dst 17 buf.length (by omega) (by omega) (by omega) hlen
-  have := stored_verifies_udp (pseudo6 src dst 17 buf.length) buf (pseudoSum src dst buf.length 17) 6
-    (by rw [pseudo6_len]; omega) (by rw [hle, hb]; exact le_be_mod _) (by rw [hle, hb]; exact le_be_zero _)
-    (by omega) h0 h1
-  simp [this]
+    verifies (pseudo6 src dst 17 buf.length ++ udpTail (.ip6 src dst) buf buf.length) = true :=
+  Verify.udp_checksum_verifies_ip6 src dst buf hs hd hlen h0 h1
 
 /-- **UDP: a computed 0 is transmitted as 0xffff** — the checksum bytes libtins stores under an IP parent are
     never both zero ("no checksum" in RFC 768), whatever the datagram. -/
 theorem udp_zero (p : Parent) (hp : p ≠ .other) (buf : Bytes) (size : Nat) (h8 : 8 ≤ buf.length) :
-    ¬ ((udpTail p buf size)[6]? = some 0 ∧ (udpTail p buf size)[7]? = some 0) := by
-  have key : ∀ v : Nat, 1 ≤ v → v ≤ 65535 →
-      ¬ ((poke16 buf 6 v)[6]? = some 0 ∧ (poke16 buf 6 v)[7]? = some 0) := by
-    intro v h1 h2
-    unfold poke16
-    rw [List.getElem?_set, List.getElem?_set, List.getElem?_set, List.getElem?_set]
-    simp only [List.length_set]
-    have a : 6 < buf.length := by omega
-    have b : 7 < buf.length := by omega
-    simp [a, b]
-    intro e1 e2
-    have t1 := congrArg UInt8.toNat e1
-    have t2 := congrArg UInt8.toNat e2
-    rw [toNat_ofNat_lt _ (by omega)] at t1 t2
-    have z : UInt8.toNat 0 = 0 := rfl
-    omega
-  have val : ∀ c : Nat, 1 ≤ (if wrap16 (not32 c) = 0 then 65535 else wrap16 (not32 c)) ∧
-      (if wrap16 (not32 c) = 0 then 65535 else wrap16 (not32 c)) ≤ 65535 := by
-    intro c; unfold wrap16; split <;> omega
-  cases p with
-  | other => exact absurd rfl hp
-  | ip4 s d => unfold udpTail; simp only []; exact key _ (val _).1 (val _).2
-  | ip6 s d => unfold udpTail; simp only []; exact key _ (val _).1 (val _).2
+    ¬ ((udpTail p buf size)[6]? = some 0 ∧ (udpTail p buf size)[7]? = some 0) :=
+  Verify.udp_zero p hp buf size h8
 
 example : ∃ buf, (udpTail (.ip4 [0,0,0,0] [0,0,0,0]) buf 8)[6]? = some 255 :=
   ⟨[0xff, 0xee, 0, 0, 0, 0, 0, 0], by decide⟩
 
 /-- **ICMP** (RFC 792): the checksum covers the whole ICMP message (header, inner packet, padding, extensions). -/
 theorem icmp_checksum_verifies (buf : Bytes) (hlen : buf.length ≤ 65535)
-    (h0 : buf[2]? = some 0) (h1 : buf[3]? = some 0) : verifies (icmpTail buf) = true := by
-  unfold icmpTail verifies
-  rw [sumRange_eq _ (by omega), not32_wrap16 _ (foldv_le _)]
-  have := stored_verifies [] buf 0 2 (by simp) (by simp [beSum]) (by simp [beSum]) (by omega) h0 h1
-  simp only [List.nil_append, Nat.zero_add] at this
-  simp [this]
+    (h0 : buf[2]? = some 0) (h1 : buf[3]? = some 0) : verifies (icmpTail buf) = true :=
+  Verify.icmp_checksum_verifies buf hlen h0 h1
 
 /-- **ICMP extension structure** (RFC 4884 §7): checksum over the structure itself. -/
 theorem icmp_extension_checksum_verifies (buf : Bytes) (hlen : buf.length ≤ 65535)
     (h0 : buf[2]? = some 0) (h1 : buf[3]? = some 0) : verifies (extTail buf) = true :=
-  icmp_checksum_verifies buf hlen h0 h1
+  Verify.icmp_extension_checksum_verifies buf hlen h0 h1
 
 /-- **ICMPv6 over IPv6** (RFC 4443 §2.3). -/
 theorem icmpv6_checksum_verifies (src dst buf : Bytes) (hs : src.length = 16) (hd : dst.length = 16)
     (hlen : buf.length ≤ 65535) (h0 : buf[2]? = some 0) (h1 : buf[3]? = some 0) :
-    verifies (pseudo6 src dst 58 buf.length ++ icmp6Tail (.ip6 src dst) buf buf.length) = true := by
-  unfold icmp6Tail verifies
-  simp only []
-  have hP := pseudoSum_small src dst buf.length 58 (by omega) (by omega) (by omega) (by omega)
-  have tv := tail_value _ _ hP (show buf.length < 131072 by omega)
-  unfold wrap16 at tv
-  rw [tv]
-  have hle := pseudoSum_le src dst buf.length 58 (by omega) (by omega) (by omega) (by omega)
-  have hb := pseudo6_beSum src dst 58 buf.length (by omega) (by omega) (by omega) hlen
-  have := stored_verifies (pseudo6 src dst 58 buf.length) buf (pseudoSum src dst buf.length 58) 2
-    (by rw [pseudo6_len]; omega) (by rw [hle, hb]; exact le_be_mod _) (by rw [hle, hb]; exact le_be_zero _)
-    (by omega) h0 h1
-  simp [this]
+    verifies (pseudo6 src dst 58 buf.length ++ icmp6Tail (.ip6 src dst) buf buf.length) = true :=
+  Verify.icmpv6_checksum_verifies src dst buf hs hd hlen h0 h1
 
 /-! ## Part 2 — CRC-32 (RadioTap frame check sequence) -/
 
@@ -201,10 +92,8 @@ theorem icmpv6_checksum_verifies (src dst buf : Bytes) (hs : src.length = 16) (h
     (`Gen/Crc.lean`, regenerated on every run) equals the bit-by-bit definition (reflected polynomial
     0xEDB88320, preset all ones, complemented result) on every input.  The 16 table entries are checked by
     `decide` (`table_entries`); `nibble_step` lifts them to all register values. -/
-theorem crc32_table_spec (data : Bytes) : crc32 data = Spec.crcBitwise data := by
-  unfold crc32 Spec.crcBitwise
-  have h0 : BitVec.ofNat 32 Gen.crcInit = 0xFFFFFFFF#32 ^^^ allOnes32 := by decide
-  rw [h0, fold_corr]; rfl
+theorem crc32_table_spec (data : Bytes) : crc32 data = Spec.crcBitwise data :=
+  Verify.crc32_table_spec data
 
 /-- the standard check value: CRC-32("123456789") = 0xCBF43926 -/
 example : crc32 [0x31, 0x32, 0x33, 0x34, 0x35, 0x36, 0x37, 0x38, 0x39] = 0xCBF43926#32 := by decide +kernel
@@ -351,7 +240,7 @@ theorem eth_tag_names_follower (dst src : Bytes) (type : Nat) (n : Layer) (rest'
     (ht : etherTypeOf n rest'.head? = some t) :
     be16At (serialize (.eth dst src type :: n :: rest') p) 12 = t := by
   simp only [wf, Bool.and_eq_true, beq_iff_eq] at hwf
-  simp only [serialize, write, List.head?_cons, List.drop_succ_cons, List.drop_zero]
+  simp only [serialize, write, ethPayloadType, List.head?_cons, List.drop_succ_cons, List.drop_zero]
   rw [show ∀ (f : Nat) (x y : Bytes), dst ++ src ++ w16 f ++ x ++ y = (dst ++ src) ++ (w16 f ++ (x ++ y)) by
     intros; simp only [List.append_assoc]]
   rw [be16At_at_len _ _ 12 (by simp [hwf.1, hwf.2]), be16At_w16']
@@ -374,10 +263,10 @@ theorem eth_tag_names_follower (dst src : Bytes) (type : Nat) (n : Layer) (rest'
     simp only []
     rw [show flagToEther (.dot1q a b c d e) = 0x8100 from rfl]
     split at ht <;> simp only [Option.some.injEq] at ht <;> subst ht <;> simp_all [Tins.Gen.TagsC05.ethQINQ, Tins.Gen.TagsC05.ethUNKNOWN]
-  | eapol _ _ => simp [wf] at hn
+  | eapol a b =>
+    simp only [etherTypeOf, Option.some.injEq] at ht; subst ht
+    simp only []; rw [show flagToEther (.eapol a b) = 0x888E from rfl]; simp [Tins.Gen.TagsC05.ethUNKNOWN]
   | «opaque» _ _ _ => simp [wf] at hn
-  | llc _ _ => simp [wf] at hn
-  | radiotap _ => simp [wf] at hn
   | _ => simp [etherTypeOf] at ht
 
 /-- **IPv4 protocol names the follower** (IP-in-IP, IPv6, TCP, UDP, ICMP, ICMPv6, AH, ESP). -/
@@ -385,7 +274,7 @@ theorem ip_proto_names_follower (tos id flags fragoff ttl proto : Nat) (src dst 
     (n : Layer) (rest' : List Layer) (p : Option Layer) (t : Nat) (hn : wf n = true)
     (ht : ipProtoOf n = some t) :
     u8 (serialize (.ip tos id flags fragoff ttl proto src dst opts :: n :: rest') p) 9 = t := by
-  simp only [serialize, write, List.head?_cons]
+  simp only [serialize, write, ipProtoField, List.head?_cons]
   unfold ipTail; simp only []
   rw [u8_poke16_ne _ _ _ _ (by omega) (by omega)]
   rw [show w16 id = [b8 (id / 256), b8 id] from rfl]
@@ -416,9 +305,6 @@ theorem ip_proto_names_follower (tos id flags fragoff ttl proto : Nat) (src dst 
     simp only [ipProtoOf, Layer.kind, Option.some.injEq] at ht; subst ht
     rw [show flagToIp (.esp a b) = 50 from rfl]; simp
   | «opaque» _ _ _ => simp [wf] at hn
-  | llc _ _ => simp [wf] at hn
-  | radiotap _ => simp [wf] at hn
-  | eapol _ _ => simp [wf] at hn
   | _ => simp [ipProtoOf, Layer.kind] at ht
 
 /-- **IPv6 next header names the follower** when there is no extension header (with extension headers the fixed header
@@ -427,7 +313,7 @@ theorem ip6_next_header_names_follower (tc flow hop nh : Nat) (src dst : Bytes)
     (n : Layer) (rest' : List Layer) (p : Option Layer) (t : Nat) (hn : wf n = true)
     (ht : ipProtoOf n = some t) :
     u8 (serialize (.ip6 tc flow hop nh src dst [] :: n :: rest') p) 6 = t := by
-  simp only [serialize, write, List.head?_cons]
+  simp only [serialize, write, ip6LastNextHeader, nextOf, List.head?_cons]
   simp only [w16, List.cons_append, List.nil_append, u8_cons_succ, u8_cons_zero, b8_toNat]
   cases n with
   | ip a b c d e f g h i =>
@@ -455,9 +341,6 @@ theorem ip6_next_header_names_follower (tc flow hop nh : Nat) (src dst : Bytes)
     simp only [ipProtoOf, Layer.kind, Option.some.injEq] at ht; subst ht
     rw [show flagToIp (.esp a b) = 50 from rfl]; simp
   | «opaque» _ _ _ => simp [wf] at hn
-  | llc _ _ => simp [wf] at hn
-  | radiotap _ => simp [wf] at hn
-  | eapol _ _ => simp [wf] at hn
   | _ => simp [ipProtoOf, Layer.kind] at ht
 
 /-- **802.1Q tag names the follower** (an inner tag keeps 0x8100; PPPoE by its stage — fixed finding KF-C05-5). -/
@@ -484,10 +367,10 @@ theorem dot1q_tag_names_follower (prio cfi id type : Nat) (padf : Bool) (n : Lay
     simp only [etherTypeInTag, etherTypeOf, Option.some.injEq] at ht; subst ht
     simp only [pduToEther]
     by_cases hc : code = 0 <;> simp [hc, Tins.Gen.TagsC05.ethPPPOES, Tins.Gen.TagsC05.ethPPPOED, Tins.Gen.TagsC05.ethUNKNOWN]
-  | eapol _ _ => simp [wf] at hn
+  | eapol a b =>
+    simp only [etherTypeInTag, etherTypeOf, Option.some.injEq] at ht; subst ht
+    rw [show pduToEther (.eapol a b) = 0x888E from rfl]; simp [Tins.Gen.TagsC05.ethUNKNOWN]
   | «opaque» _ _ _ => simp [wf] at hn
-  | llc _ _ => simp [wf] at hn
-  | radiotap _ => simp [wf] at hn
   | _ => simp [etherTypeInTag, etherTypeOf] at ht
 
 /-- the class → tag and tag → class tables of `pdu_helpers.cpp` are inverse to each other on every class that has a
@@ -689,34 +572,18 @@ theorem length_fields_partial (pre : List Layer) (tos id flags fragoff ttl proto
   have h3 := ip_proto_names_follower tos id flags fragoff ttl proto src dst opts n rest' (parentAfter pre none) t hn ht
   exact ⟨A, _, B, hs, hA, h1.1, h1.2.1, h1.2.2, h2, h3⟩
 
-/-! ### the full statement, its refutation on the current code (KF-C05-1 / KF-C05-2), and what is proved -/
+/-! ### the full statement over whole stacks: refuted on the current code by KF-C05-1 / -2 and KF-C05-10 / -11, proved outside
 
-/-- numeric fields inside the width of their wire field; ICMP error messages leave the octets libtins derives alone;
-    only the last MPLS label may carry a user-set bottom-of-stack bit -/
-def inRange : Layer → Bool
-  | .eth _ _ t => t < 65536
-  | .dot1q prio cfi id t _ => prio < 8 && cfi < 2 && id < 4096 && t < 65536
-  | .ip tos id fl fo ttl pr _ _ opts => tos < 256 && id < 65536 && fl < 8 && fo < 8192 && ttl < 256 && pr < 256 &&
-      opts.all (fun (_, d) => d.length < 254) && ipOptSize opts ≤ 40
-  | .ip6 tc flow hop nh _ _ exts => tc < 256 && flow < 1048576 && hop < 256 && nh < 256 &&
-      exts.all (fun (t, d) => t < 256 && d.length < 2040)
-  | .tcp sp dp seq ack fl win urg opts => sp < 65536 && dp < 65536 && seq < 4294967296 && ack < 4294967296 && fl < 4096 &&
-      win < 65536 && urg < 65536 && opts.all (fun (t, d) => t < 256 && d.length < 254) && tcpOptSize opts ≤ 40
-  | .udp sp dp => sp < 65536 && dp < 65536
-  | .icmp type code id seq a b c _ exts => type < 256 && code < 256 && id < 65536 && seq < 65536 && a < 4294967296 &&
-      b < 4294967296 && c < 4294967296 && ((type != 3 && type != 11 && type != 12) || (id == 0 && seq == 0)) &&
-      exts.all (fun (cl, t, p) => cl < 256 && t < 256 && p.length < 65532)
-  | .icmp6 type code id seq _ exts => type < 256 && code < 256 && id < 65536 && seq < 65536 &&
-      ((type != 1 && type != 3) || (id == 0 && seq == 0)) &&
-      exts.all (fun (cl, t, p) => cl < 256 && t < 256 && p.length < 65532)
-  | .mpls label exp bos ttl => label < 1048576 && exp < 8 && bos < 2 && ttl < 256
-  | .pppoe code sess plen tags => code < 256 && sess < 65536 && plen < 65536 && tags.all (fun (t, d) => t < 65536 && d.length < 65536)
-  | _ => true
+  `Dissect.walk` is the RFC dissector used as oracle on the implementation's own output (`Checksum/Dissect.lean`); `accepted
+  ls` says it accepts the complete serialisation of the stack `ls`: every length / header-length field it reads equals the
+  octets it governs (the inner stack is found exactly there and nowhere else), every next-protocol tag names the follower,
+  padding is zero and minimal, every checksum and the RadioTap FCS verify, every value set through the API is read back.
 
-def mplsOK : List Layer → Bool
-  | .mpls _ _ bos _ :: (.mpls a b c d) :: r => bos == 0 && mplsOK (.mpls a b c d :: r)
-  | _ :: r => mplsOK r
-  | [] => true
+  Hypotheses (`Checksum/Walk/Defs.lean`): `wf` (address widths, option lists where libtins' size and writer agree),
+  `inRange` (values inside their wire fields; an AH ICV of whole 32-bit words), `delimited none 0` (stacks the dissector
+  can delimit: a class without a length field of its own does not sit inside another layer's padding, RFC 4884
+  extensions follow an original datagram in an extensible message, PPPoE session / discovery shapes, a top-level MPLS label
+  says itself whether it is the bottom of the stack) and `size ls ≤ 65535`. -/
 
 /-- does the RFC dissector accept the bytes of the stack (all checks of `Dissect.walk`, values set included) -/
 def accepted (ls : List Layer) : Bool :=
@@ -725,10 +592,10 @@ def accepted (ls : List Layer) : Bool :=
   | .error _ => false
 
 /-- **Full statement** (C05 for the modelled classes): the independent dissector accepts every serialised stack of at
-    most 65535 octets — every length field equals the bytes it governs, every header length points at the end of
-    its header, every tag names its follower, padding is zero and minimal, every checksum verifies. -/
+    most 65535 octets. -/
 def length_fields_full : Prop :=
-  ∀ ls : List Layer, ls.all wf = true → ls.all inRange = true → mplsOK ls = true → size ls ≤ 65535 → accepted ls = true
+  ∀ ls : List Layer, ls.all wf = true → ls.all inRange = true → delimited none 0 ls = true → size ls ≤ 65535 →
+    accepted ls = true
 
 /-- KF-C05-1: ICMP Time Exceeded with the RFC 4884 length field requested, no extensions, 5 octets of original datagram:
     the length octet says 2 words (8 octets), 5 follow. -/
@@ -740,31 +607,208 @@ theorem length_fields_full_fails : ¬ length_fields_full := by
   have := h kf1Witness (by decide) (by decide) (by decide) (by decide)
   revert this; decide +kernel
 
-/-- the region the known findings KF-C05-1 / KF-C05-2 exclude: an ICMP (ICMPv6) error message without extensions whose
-    RFC 4884 length field is in use while the inner stack is not a multiple of 4 (8) octets -/
-def rfc4884Unpadded : List Layer → Bool
-  | .icmp type _ id _ _ _ _ lenflag exts :: rest =>
-    ((type == 3 || type == 11 || type == 12) && exts.isEmpty && !rest.isEmpty &&
-      (lenflag || id % 256 != 0 || paddedInner (some (size rest)) 4 > 128) && size rest % 4 != 0) || rfc4884Unpadded rest
-  | .icmp6 type _ id _ lenflag exts :: rest =>
-    ((type == 1 || type == 3) && exts.isEmpty && !rest.isEmpty &&
-      (lenflag || id / 256 % 256 != 0 || paddedInner (some (size rest)) 8 > 128) && size rest % 8 != 0) || rfc4884Unpadded rest
-  | _ :: rest => rfc4884Unpadded rest
-  | [] => false
-
-/-- **What remains to be proved** (stated, not proved): acceptance by the whole dissector outside the known-finding
-    region.  Proved instead, for all inputs: the component theorems above (`eth_min_60`, `ip_length_fields`,
-    `udp_length_field`, `ip6_payload_length_field`, `tcp_data_offset_field`, `eth_tag_names_follower`,
-    `ip_proto_names_follower`, `*_checksum_in_situ*`, `serialize_length`) and `length_fields_partial` below; missing is
-    their composition along `Dissect.walk` for arbitrary stacks (the remaining per-layer value comparisons, 802.1Q /
-    PPPoE / MPLS / SNAP / SLL / loopback / AH tags, IPv6 extension chain, RFC 4884 layout with extensions). -/
-def length_fields_outside_known_findings : Prop :=
-  ∀ ls : List Layer, ls.all wf = true → ls.all inRange = true → mplsOK ls = true → size ls ≤ 65535 →
+/-- the statement with only the region of KF-C05-1 / -2 (`rfc4884Unpadded`) taken out -/
+def length_fields_outside_unpadded : Prop :=
+  ∀ ls : List Layer, ls.all wf = true → ls.all inRange = true → delimited none 0 ls = true → size ls ≤ 65535 →
     rfc4884Unpadded ls = false → accepted ls = true
 
+/-- KF-C05-10: ICMP Destination Unreachable around 1028 octets of original datagram: 257 words do not fit the 8-bit length
+    field, `header_.un.rfc4884.length = length_value / sizeof(uint32_t)` stores 1 — a receiver following RFC 4884 takes
+    the octets after the first 4 for an extension structure. -/
+def kf10Witness : List Layer :=
+  [.ip 0 1 0 0 64 0 [10, 0, 0, 1] [10, 0, 0, 2] [], .icmp 3 0 0 0 0 0 0 false [], .raw (List.replicate 1028 0xab)]
+
+theorem length_fields_outside_unpadded_fails : ¬ length_fields_outside_unpadded := by
+  intro h
+  have := h kf10Witness (by decide +kernel) (by decide +kernel) (by decide +kernel) (by decide +kernel) (by decide +kernel)
+  revert this; decide +kernel
+
+/-- **What holds on the current code**: acceptance by the whole dissector outside the regions of the known findings
+    (KF-C05-1 / -2: `rfc4884Unpadded`; KF-C05-10 / -11: `rfc4884Overflow`). -/
+def length_fields_outside_known_findings : Prop :=
+  ∀ ls : List Layer, ls.all wf = true → ls.all inRange = true → delimited none 0 ls = true → size ls ≤ 65535 →
+    rfc4884Unpadded ls = false → rfc4884Overflow ls = false → accepted ls = true
+
+/-- **`length_fields`** — for every stack the serialisation model builds, of any depth and any mix of the classes
+    EthernetII, 802.1Q (QinQ), 802.3, LLC, SNAP, PPPoE, MPLS, loopback, SLL, IPv4 (+options), IPv6 (+extension headers), AH,
+    ESP, TCP (+options), UDP, ICMP / ICMPv6 (+RFC 4884 extensions), RC4 EAPOL, RadioTap, RawPDU: `Dissect.walk (serialize
+    ls)` accepts the whole serialisation.  By induction over the stack (`Checksum/Walk/Main.lean`, `acc_all`), one step
+    lemma per class (`Checksum/Walk/Step*.lean`) over the introduction rules of the dissector (`Checksum/Walk/Intro.lean`). -/
+theorem length_fields : length_fields_outside_known_findings := by
+  intro ls hwf hr hd hsz hk1 hk10
+  unfold accepted
+  rw [check_all ls hwf hr hsz hd hk1 hk10]
+
+/-- the same with an enclosing layer `p` and `k` octets of its padding behind the stack: the statement the induction runs
+    on (`Acc`: the walk accepts and hands exactly the padding back) -/
+theorem length_fields_in_context (ls : List Layer) (p : Option Layer) (k : Nat)
+    (hwf : ls.all wf = true) (hr : ls.all inRange = true) (hp : parentWf p) (hsz : size ls ≤ 65535)
+    (hd : delimited p k ls = true) (hk1 : rfc4884Unpadded ls = false) (hk10 : rfc4884Overflow ls = false) :
+    Dissect.walk true ls (serialize ls p ++ zeros k) (walkPar p) = .ok (zeros k) :=
+  acc_all ls p k hwf hr hp hsz hd hk1 hk10
+
 example : rfc4884Unpadded kf1Witness = true := by decide
-example : accepted [.eth [1,2,3,4,5,6] [7,8,9,10,11,12] 0, .ip 0 1 2 0 64 0 [10, 0, 0, 1] [10, 0, 0, 2] [(1, []), (7, [1, 2, 3])],
-    .udp 53 5353, .raw [0xde, 0xad, 0xbe]] = true := by decide +kernel
+example : rfc4884Overflow kf10Witness = true := by decide +kernel
+
+/-! non-vacuity of `length_fields`: concrete stacks that meet every hypothesis (the conclusion then follows from the theorem,
+    and is re-checked by evaluation) -/
+section Examples
+private def eth0 : Layer := .eth [1,2,3,4,5,6] [7,8,9,10,11,12] 0
+private def ip4a : Layer := .ip 0 1 2 0 64 0 [10, 0, 0, 1] [10, 0, 0, 2] [(1, []), (7, [1, 2, 3])]
+private def ip6a : Layer := .ip6 0 0 64 0 [0x20,1,0xd,0xb8,0,0,0,0,0,0,0,0,0,0,0,1] [0x20,1,0xd,0xb8,0,0,0,0,0,0,0,0,0,0,0,2]
+  [(60, [1, 2, 3, 4, 5, 6, 7]), (0, [9])]
+
+/-- Ethernet / IPv4 with options / UDP / payload (minimum-frame padding applies) -/
+def exUdp : List Layer := [eth0, ip4a, .udp 53 5353, .raw [0xde, 0xad, 0xbe]]
+/-- QinQ / PPPoE session -/
+def exPppoe : List Layer := [eth0, .dot1q 1 0 5 0 false, .dot1q 0 0 6 0 true, .pppoe 0 7 0 [], .raw [0, 0x21, 1, 2, 3]]
+/-- PPPoE discovery with two tags -/
+def exPppoeD : List Layer := [eth0, .pppoe 9 7 0 [(0x0101, []), (0x0103, [0xaa, 0xbb])]]
+/-- MPLS label stack -/
+def exMpls : List Layer := [eth0, .mpls 5 0 0 64, .mpls 6 1 0 63, ip4a, .tcp 80 1024 1 2 0x18 512 0 [(2, [5, 0xb4]), (1, [])], .raw [1]]
+/-- 802.3 / LLC+SNAP / IPv6 with two extension headers / ICMPv6 Destination Unreachable with an RFC 4884 extension structure -/
+def exIcmp6 : List Layer := [.dot3 [1,2,3,4,5,6] [7,8,9,10,11,12], .snap 3 0 0, ip6a,
+  .icmp6 1 0 0 0 true [(1, 1, [0xaa, 0xbb, 0xcc, 0xdd])], .raw [1, 2, 3, 4, 5, 6, 7, 8, 9]]
+/-- Linux cooked capture / IPv4 / AH / ICMP Time Exceeded with extensions around an IPv4 + UDP original datagram -/
+def exAh : List Layer := [.sll 0 1 6 [0,1,2,3,4,5,0,0] 0, ip4a, .ah 1 2 [1,2,3,4,5,6,7,8] 0,
+  .icmp 11 0 0 0 0 0 0 false [(2, 1, [1, 2])], .ip 0 2 0 0 1 0 [10,0,0,2] [10,0,0,9] [], .udp 1 2, .raw [7]]
+/-- BSD loopback / IPv6 / ESP -/
+def exLoop : List Layer := [.loop 0, ip6a, .esp 1 2, .raw [1, 2, 3]]
+/-- RadioTap with FCS around a frame, RC4 EAPOL key frame over Ethernet / 802.3 + LLC -/
+def exRadio : List Layer := [.radiotap true, .raw [0xd4, 0, 0, 0, 1, 2, 3, 4, 5, 6]]
+def exEapol : List Layer := [eth0, .eapol 5 [0xaa, 0xbb, 0xcc]]
+def exLlc : List Layer := [.dot3 [1,2,3,4,5,6] [7,8,9,10,11,12], .llc 0x42 0x42, .raw [0, 0]]
+
+private theorem ex_ok (ls : List Layer) (h : (ls.all wf && ls.all inRange && delimited none 0 ls && decide (size ls ≤ 65535) &&
+    !rfc4884Unpadded ls && !rfc4884Overflow ls) = true) : accepted ls = true := by
+  simp only [Bool.and_eq_true, decide_eq_true_eq, Bool.not_eq_true'] at h
+  obtain ⟨⟨⟨⟨⟨h1, h2⟩, h3⟩, h4⟩, h5⟩, h6⟩ := h
+  exact length_fields ls h1 h2 h3 h4 h5 h6
+
+example : accepted exUdp = true := ex_ok _ (by decide)
+example : accepted exPppoe = true := ex_ok _ (by decide)
+example : accepted exPppoeD = true := ex_ok _ (by decide)
+example : accepted exMpls = true := ex_ok _ (by decide)
+example : accepted exIcmp6 = true := ex_ok _ (by decide)
+example : accepted exAh = true := ex_ok _ (by decide)
+example : accepted exLoop = true := ex_ok _ (by decide)
+example : accepted exRadio = true := ex_ok _ (by decide)
+example : accepted exEapol = true := ex_ok _ (by decide)
+example : accepted exLlc = true := ex_ok _ (by decide)
+example : accepted exIcmp6 = true := by decide +kernel
+example : accepted exRadio = true := by decide +kernel
+end Examples
+
+/-! ### the single fields behind `length_fields`, by name (each is one clause of the dissector; `length_fields` composes them) -/
+
+/-- **IPv6 extension chain**: started with the next-header value of the fixed header, the dissector finds every extension
+    header at the offset the `Hdr Ext Len` octets of its predecessors give (8-octet units beyond the first 8), each naming
+    the type of the next, the data and zero padding in place, and ends behind the last one holding `last`. -/
+theorem ip6_extension_chain (exts : List (Nat × Bytes)) (last : Nat) (pre X : Bytes)
+    (hr : exts.all (fun (t, d) => t < 256 && d.length < 2040) = true) (hl : last < 256) :
+    Dissect.walk.chain (pre ++ (ip6ExtBytes exts last ++ X)) exts (nextOf exts last) pre.length
+      = .ok (last, pre.length + (ip6ExtBytes exts last).length) :=
+  chain_written exts last pre X hr hl
+
+example : (match Dissect.walk.chain ([0xff] ++ (ip6ExtBytes [(60, [1, 2, 3, 4, 5, 6, 7]), (0, [9])] 58 ++ [0xee]))
+    [(60, [1, 2, 3, 4, 5, 6, 7]), (0, [9])] 60 1 with | .ok r => r == (58, 25) | .error _ => false) = true := by decide +kernel
+
+/-- **RFC 4884 extension structure**: what `ICMPExtensionsStructure::serialize` writes has version 2, a checksum over the
+    structure that verifies, and objects whose length fields chain up exactly to its end and carry the class, type and
+    payload that were set. -/
+theorem rfc4884_extension_structure (who : String) (exts : List (Nat × Nat × Bytes))
+    (hr : exts.all (fun (cl, t, p) => cl < 256 && t < 256 && p.length < 65532) = true)
+    (hsz : extStructSize exts ≤ 65535) :
+    Dissect.checkExtStruct who (writeExtStruct exts) true exts = .ok () :=
+  checkExtStruct_written who exts hr hsz
+
+example : (match Dissect.checkExtStruct "icmp" (writeExtStruct [(1, 1, [0xaa, 0xbb]), (2, 3, [])]) true
+    [(1, 1, [0xaa, 0xbb]), (2, 3, [])] with | .ok _ => true | .error _ => false) = true := by decide +kernel
+
+/-- **RFC 4884 length octet** with an extension structure: in 32-bit words exactly the padded original datagram, at least
+    128 octets (0 stands for 128) — outside KF-C05-10 (more than 255 words). -/
+theorem icmp_rfc4884_length_octet (type : Nat) (lenflag : Bool) (sz : Nat) (exts : List (Nat × Nat × Bytes))
+    (hal : type = 3 ∨ type = 11 ∨ type = 12) (he : exts.isEmpty = false) (hov : paddedInner (some sz) 4 < 1024) :
+    icmpLengthOctet type lenflag 0 (some sz) exts < 256 ∧
+    (if icmpLengthOctet type lenflag 0 (some sz) exts ≠ 0 then icmpLengthOctet type lenflag 0 (some sz) exts * 4 else 128)
+      = (if paddedInner (some sz) 4 > 128 then paddedInner (some sz) 4 else 128) :=
+  icmp_octet_ext type lenflag sz exts hal he hov
+
+theorem icmp6_rfc4884_length_octet (type : Nat) (lenflag : Bool) (sz : Nat) (exts : List (Nat × Nat × Bytes))
+    (hal : type = 1 ∨ type = 3) (he : exts.isEmpty = false) (hov : paddedInner (some sz) 8 < 2048) :
+    icmp6LengthOctet type lenflag 0 (some sz) exts < 256 ∧
+    (if icmp6LengthOctet type lenflag 0 (some sz) exts ≠ 0 then icmp6LengthOctet type lenflag 0 (some sz) exts * 8 else 128)
+      = (if paddedInner (some sz) 8 > 128 then paddedInner (some sz) 8 else 128) :=
+  icmp6_octet_ext type lenflag sz exts hal he hov
+
+example : icmpLengthOctet 3 true 0 (some 131) [(1, 1, [])] = 33 := by decide
+example : icmp6LengthOctet 1 false 0 (some 9) [(1, 1, [])] = 0 := by decide
+
+/-- **RadioTap `it_len`** is the size of the RadioTap header (little-endian), and the frame starts right behind it. -/
+theorem radiotap_it_len (fcs : Bool) (rest : List Layer) (p : Option Layer) :
+    le16At (serialize (.radiotap fcs :: rest) p) 2 = headerSize (.radiotap fcs) ∧
+    ((serialize (.radiotap fcs :: rest) p).drop (headerSize (.radiotap fcs))).take (serialize rest (some (.radiotap fcs))).length
+      = serialize rest (some (.radiotap fcs)) := by
+  obtain ⟨H, T, hH, hw⟩ := write_frame (.radiotap fcs) rest (serialize rest (some (.radiotap fcs))) p rfl
+  constructor
+  · cases fcs <;> cases rest <;> rfl
+  · simp only [serialize]
+    rw [hw, List.append_assoc, drop_append_len _ _ _ hH, take_append_len _ _ _ rfl]
+
+/-- **RadioTap FCS**: when the FLAGS field of the header has the FCS bit, the four octets behind the carried frame are the
+    IEEE 802.3 CRC-32 (bit-by-bit definition) of exactly that frame, least significant octet first; without the bit nothing
+    follows the frame. -/
+theorem radiotap_fcs (a : Layer) (r : List Layer) (p : Option Layer) :
+    ∃ H : Bytes, H.length = headerSize (.radiotap true) ∧
+      serialize (.radiotap true :: a :: r) p = H ++ serialize (a :: r) (some (.radiotap true))
+        ++ w32le (Spec.crcBitwise (serialize (a :: r) (some (.radiotap true)))).toNat := by
+  refine ⟨[0, 0, b8 (4 + (radiotapPayload true).length), b8 ((4 + (radiotapPayload true).length) / 256)]
+    ++ radiotapPayload true, rfl, ?_⟩
+  have htr : trailerSize (Layer.radiotap true) (if false = true then none else some (size (a :: r))) = 4 := rfl
+  rw [serialize]; simp only [write, headerSize, List.isEmpty_cons, Bool.not_false, htr]
+  rw [if_pos ⟨by omega, trivial⟩, Verify.crc32_table_spec]
+
+theorem radiotap_no_fcs (rest : List Layer) (p : Option Layer) :
+    ∃ H : Bytes, H.length = headerSize (.radiotap false) ∧
+      serialize (.radiotap false :: rest) p = H ++ serialize rest (some (.radiotap false)) := by
+  refine ⟨[0, 0, b8 (4 + (radiotapPayload false).length), b8 ((4 + (radiotapPayload false).length) / 256)]
+    ++ radiotapPayload false, rfl, ?_⟩
+  have htr : trailerSize (Layer.radiotap false) (if rest.isEmpty = true then none else some (size rest)) = 0 := rfl
+  simp only [serialize, write, htr, headerSize, gt_iff_lt, Nat.lt_irrefl, false_and, if_false, zeros_zero, List.append_nil]
+
+example : serialize [.radiotap true, .raw [0xaa, 0xbb, 0xcc]] none
+    = [0, 0, 26, 0] ++ radiotapPayload true ++ [0xaa, 0xbb, 0xcc] ++ [0x4c, 0xf8, 0x4d, 0xbe] := by decide +kernel
+
+/-- **EAPOL length**: the packet body length is everything behind the 4-octet EAPOL header. -/
+theorem eapol_length_field (keylen : Nat) (key : Bytes) (rest : List Layer) (p : Option Layer)
+    (hall : rest.all wf = true) (hsz : size (Layer.eapol keylen key :: rest) ≤ 65535) :
+    be16At (serialize (.eapol keylen key :: rest) p) 2 = (serialize (.eapol keylen key :: rest) p).length - 4 := by
+  have hl := serialize_length (.eapol keylen key :: rest) p (by simp only [List.all_cons, Bool.and_eq_true]; exact ⟨rfl, hall⟩)
+  have hin := serialize_length rest (some (.eapol keylen key)) hall
+  rw [hl]
+  simp only [size, headerSize, trailerSize] at hsz ⊢
+  simp only [serialize, write, headerSize, trailerSize, hin, List.cons_append, List.nil_append, List.append_assoc, be16At_cons,
+    be16At_w16']
+  omega
+
+example : be16At (serialize [.eapol 5 [1, 2, 3]] none) 2 = 47 := by decide
+
+/-- **802.3 length**: the length field counts exactly the octets behind the 14-octet header (LLC, SNAP and what they carry). -/
+theorem dot3_length_field (dst src : Bytes) (rest : List Layer) (p : Option Layer)
+    (hwf : (Layer.dot3 dst src :: rest).all wf = true) (hsz : size (Layer.dot3 dst src :: rest) ≤ 65535 + 14) :
+    be16At (serialize (.dot3 dst src :: rest) p) 12 = (serialize (.dot3 dst src :: rest) p).length - 14 := by
+  have hl := serialize_length _ p hwf
+  simp only [List.all_cons, Bool.and_eq_true] at hwf
+  have hin := serialize_length rest (some (.dot3 dst src)) hwf.2
+  have hw := hwf.1; simp only [wf, Bool.and_eq_true, beq_iff_eq] at hw
+  rw [hl]
+  simp only [size, headerSize, trailerSize] at hsz ⊢
+  simp only [serialize, write, headerSize, trailerSize, hin]
+  rw [show ∀ x : Bytes, dst ++ src ++ w16 (14 + size rest + 0 - 14) ++ x = (dst ++ src) ++ (w16 (14 + size rest + 0 - 14) ++ x) by
+    intro x; simp only [List.append_assoc]]
+  rw [be16At_at_len _ _ 12 (by simp [hw.1, hw.2]), be16At_w16']; omega
+
+example : be16At (serialize [.dot3 [1,2,3,4,5,6] [7,8,9,10,11,12], .llc 0x42 0x42, .raw [1, 2]] none) 12 = 6 := by decide
 
 end Tins.Props.C05
 
@@ -1169,6 +1213,54 @@ theorem wire_pppoe_payload_length (cx : Ctx) (p : PPPoE) (h : p.Inv) (region : B
   Tins.Wire.Derived.wire_pppoe_payload_length cx p h region hreg h16 hne
 
 end WireL2
+
+section WireWifi
+open Tins Tins.Wire Tins.Wire.Wifi Tins.Wire.Derived
+
+/-- **`Utils::crc32` of the wire model is the IEEE 802.3 CRC-32** (through C05's `crc32_table_spec`). -/
+theorem wire_crc32_ieee (bs : Bytes) : Wifi.crc32 bs = (Tins.Ck.Spec.crcBitwise bs).toNat :=
+  Tins.Wire.Derived.wifi_crc32_ieee bs
+
+/-- **RadioTap `it_len`** is `header_size()`, for every option payload the RadioTap parser accepts. -/
+theorem wire_radiotap_it_len (cx : Ctx) (r : RadioTap) (hw : r.WF) (region : Bytes)
+    (hr : region.length = r.hdrSize + cx.innerSize + r.trl) (h16 : r.hdrSize < 65536) :
+    ∃ out, r.write cx region = .ok out ∧ out.length = region.length ∧ Dot11.leAt out 2 2 = r.hdrSize :=
+  Tins.Wire.Derived.wire_radiotap_it_len cx r hw region hr h16
+
+/-- **RadioTap FCS**: placed behind the inner region iff the FLAGS field has the FCS bit and there is an inner PDU, and then
+    it is the IEEE CRC-32 of exactly the inner region, least significant octet first. -/
+theorem wire_radiotap_fcs (cx : Ctx) (r : RadioTap) (hw : r.WF) (region : Bytes)
+    (ht : r.trlOut = .ok 4) (hne : cx.inners ≠ []) (hr : region.length = r.hdrSize + cx.innerSize + 4) :
+    ∃ out, r.write cx region = .ok out ∧
+      (out.drop r.hdrSize).take cx.innerSize = (region.drop r.hdrSize).take cx.innerSize ∧
+      out.drop (r.hdrSize + cx.innerSize)
+        = OutCursor.leBytes 4 (Tins.Ck.Spec.crcBitwise ((region.drop r.hdrSize).take cx.innerSize)).toNat :=
+  Tins.Wire.Derived.wire_radiotap_fcs cx r hw region ht hne hr
+
+theorem wire_radiotap_no_fcs (cx : Ctx) (r : RadioTap) (hw : r.WF) (region : Bytes) (t : Nat)
+    (ht : r.trlOut = .ok t) (hc : t = 0 ∨ cx.inners = []) (hr : r.hdrSize ≤ region.length) :
+    ∃ out, r.write cx region = .ok out ∧ out.drop r.hdrSize = region.drop r.hdrSize :=
+  Tins.Wire.Derived.wire_radiotap_no_fcs cx r hw region t ht hc hr
+
+/-- **EAPOL packet body length** (RC4 and RSN key frames). -/
+theorem wire_eapol_length (e : Eapol) (hw : e.WF) (region : Bytes) (hr : e.hdrSize ≤ region.length)
+    (h16 : region.length - 4 < 65536) :
+    ∃ out, e.write region = .ok out ∧ out.length = region.length ∧
+      Cursor.beNat ((out.drop 2).take 2) = out.length - 4 :=
+  Tins.Wire.Derived.wire_eapol_length e hw region hr h16
+
+/-- **802.3 length.** -/
+theorem wire_dot3_length (cx : Ctx) (d : L2.Dot3) (h : d.WF) (region : Bytes)
+    (hreg : region.length = 14 + cx.innerSize) (h16 : cx.innerSize < 65536) :
+    ∃ out, d.write cx region = .ok out ∧ out.length = region.length ∧
+      Cursor.beNat ((out.drop 12).take 2) = out.length - 14 :=
+  Tins.Wire.Derived.wire_dot3_length cx d h region hreg h16
+
+/-- non-vacuity: the default RadioTap object with the FCS flag is well formed and its trailer is the FCS -/
+example : (⟨[0, 0, 0, 0], Tins.Ck.Ser.radiotapPayload true⟩ : RadioTap).trl = 4 := by decide +kernel
+example : (Eapol.mk false [1, 3, 0, 0, 1] (List.replicate 43 0) [1, 2, 3]).hdrSize = 51 := by decide
+
+end WireWifi
 
 section WirePacket
 open Tins Tins.Wire Tins.Wire.Derived
